@@ -7,7 +7,7 @@ circle/ellipse (z test judged only for points exactly in plane or clearly off pl
 
 import numpy as np
 
-from .. import contracts, gen, geom, points
+from .. import aging, contracts, gen, geom, points
 
 PROPERTY = "C06"
 MARGIN = 1e-6
@@ -23,7 +23,7 @@ ANCHORS = ["coxeter.shapes.polygon:Polygon.is_inside", "coxeter.shapes.circle:Ci
            "coxeter.shapes.ellipse:Ellipse.is_inside"]
 REQUIRED_MONITORS = ["Polygon.is_inside", "Circle.is_inside", "Ellipse.is_inside", "batch-vs-single"]
 REQUIRED_CLASSES = ["Polygon:cw", "Polygon:ccw", "Polygon:tilted", "Polygon:(N,2)", "Circle", "Ellipse:a<b", "Ellipse:a>b",
-                    "Ellipse:a=b", "quadrant:--"]
+                    "Ellipse:a=b", "quadrant:--", "history:aged-object"]
 
 
 def ncases(tier):
@@ -115,6 +115,10 @@ def run_case(i, rng, rec, tier, state):
     nb = int(BATCHES[int(rng.integers(len(BATCHES)))])
     info = {"class": which}
     use2 = False
+    # one case in four judges an object with a past (reads, moves, resizes, semi-axes assigned through the public API)
+    aged = (i // 4) % 4 == 2
+    if aged:
+        rec.cls("history:aged-object")
     if which == "Polygon":
         c = gen.polygon_case(rng)
         if c.get("straight_corner") is not None:
@@ -126,7 +130,9 @@ def run_case(i, rng, rec, tier, state):
         except Exception as e:
             rec.note("construct-failed (judged by C15): " + type(e).__name__)
             return
-        Vs = np.asarray(s.vertices, float)
+        if aged:
+            info["history"] = aging.age(s, rng, inplane=not c["tilted"])
+        Vs = np.array(s.vertices, float)
         e1, e2, n = geom.plane_frame(c["normal"])
         o = Vs.mean(0)
         xy = np.column_stack(((Vs - o) @ e1, (Vs - o) @ e2))
@@ -136,7 +142,7 @@ def run_case(i, rng, rec, tier, state):
             # xy-plane: generate in absolute coordinates so that points share x or y with a vertex *exactly*
             # (going through the shifted frame would lose the tie in the last bit)
             pa = points.points2d(rng, Vs[:, :2], nb)
-            if c["lattice"]:
+            if c["lattice"] and not aged:
                 # lattice polygons: the whole (half-)integer grid of the bounding box - every point ties with vertices
                 lo_, hi_ = np.floor(Vs[:, :2].min(0)) - 1, np.ceil(Vs[:, :2].max(0)) + 1
                 step = 0.5 if (hi_ - lo_).max() <= 30 else 1.0
@@ -173,6 +179,10 @@ def run_case(i, rng, rec, tier, state):
         if rng.random() < 0.3:
             cen[2] = float(rng.uniform(-2, 2)) * max(ax)
         s = cs.Circle(ax[0], cen) if which == "Circle" else cs.Ellipse(ax[0], ax[1], cen)
+        if aged:
+            info["history"] = aging.age(s, rng)
+            ax = [float(s.radius)] if which == "Circle" else [float(s.a), float(s.b)]
+            cen = np.array(s.centroid, float)
         a2 = [ax[0], ax[0]] if which == "Circle" else ax
         n_in = nb
         u = rng.normal(size=(n_in, 2))
